@@ -71,6 +71,11 @@ CHECKS = {
          "Random search over #if/#elif/#else trees to depth 4 (conditions over constants declared before, after and inside other arms, hierarchical names) x 0-4 defines; the one live world is computed by the reference and assembled by the reference assembler; accept/reject, bits and symbols must match, and library and command-line ways of passing defines must agree. Exploration.",
          "Arms declare only global symbols or only children of the global label preceding the chain (the re-parenting of later nested declarations is a listed known finding with a directed probe); defines name constants or nothing.",
          "6/C16"),
+ "C17": ("exploration",
+         "metamorphic property testing: generated macro rules (asm blocks) vs. the generator's own hand-inlined program, generated functions vs. textual substitution and the reference evaluator, and recursion probes at depths around and far beyond the limit",
+         "Random search over macro rules (textual {param} substitution with expression arguments, block-local labels, forward global labels, sub-rule operands, nesting to 3) and over #fn definitions; the macro program must assemble to the bits of the inlined program whenever the latter assembles; calls must equal substituted bodies and the reference value; recursion at depth <= 10 must succeed and at depth >= 100 must be an error (a dying worker is a violation). Exploration.",
+         "Base instruction sets for the macro part are size-static and carry no assert constraints (an assert on a forward label inside a block is a listed known finding with a directed probe); nothing is asserted when the hand-inlined program is itself rejected.",
+         "6/C17"),
  "C18": ("exploration",
          "model-based property testing of command lines: the option grammar and format table are parsed from src/usage_help.md at run time; the driver's accept/reject decision, written files and their contents are compared with the model; a sample goes through the real binary",
          "Random search over command lines (1-4 groups, every documented format and parameter, invalid near-misses, option spellings, global options anywhere, awkward input names) on four small programs. Decides accept/reject-before-assembling, the list of files, per-group content (defaults and aliases as documented), -p, -q, -t plumbing, -h/-v. Exploration.",
